@@ -76,7 +76,10 @@ func planUnits(thorough bool) (units []unit, bounds map[string]interface{}) {
 			}
 			per += int64(len(p.ms)*len(p.fams)) * pow5(n)
 			if p.addl {
-				per += 2*int64(len(addlSects))*pow5(n) + pow5(2*n)
+				per += 2 * int64(len(addlSects)) * pow5(n)
+				if n <= 2 || thorough {
+					per += pow5(2 * n)
+				}
 				if bothFor(p.set, p.backend) {
 					per += int64(len(addlSects)) * pow5(2*n)
 				}
@@ -114,11 +117,15 @@ func planUnits(thorough bool) (units []unit, bounds map[string]interface{}) {
 				addPlan(e2ePlan{set: set, backend: dnsfix.RDBv1, ms: seq(1, 8), fams: []int{4, 6}, clients: both, addl: true, shuffle: true})
 			}
 			// part 1b: response cache enabled
+			cms := []int{1, 2, 3, 8}
+			if thorough {
+				cms = seq(1, 8)
+			}
 			if n <= 3 || (thorough && n == 4) {
-				addPlan(e2ePlan{set: set, backend: dnsfix.CDB, ms: seq(1, 8), cache: true})
+				addPlan(e2ePlan{set: set, backend: dnsfix.CDB, ms: cms, cache: true})
 			}
 			if n <= 1 || (thorough && n == 2) {
-				addPlan(e2ePlan{set: set, backend: dnsfix.RDBv2, ms: seq(1, 8), cache: true})
+				addPlan(e2ePlan{set: set, backend: dnsfix.RDBv2, ms: cms, cache: true})
 			}
 		}
 	}
@@ -231,6 +238,7 @@ func main() {
 	}
 	if r.Thorough() {
 		universeMaxSize = 3
+		multiMaxSize = 3
 	}
 	units, bounds := planUnits(r.Thorough())
 	idx, n, isShard := r.Shard()
